@@ -30,7 +30,7 @@ impl Limits {
         Limits { max_decisions: 48, max_paths: 96, max_ops: 200_000 }
     }
     pub fn thorough() -> Limits {
-        Limits { max_decisions: 512, max_paths: 4096, max_ops: 5_000_000 }
+        Limits { max_decisions: 256, max_paths: 1024, max_ops: 2_000_000 }
     }
 }
 
